@@ -326,7 +326,13 @@ class DefaultWorker(Worker):
             worker_proc.join(timeout=tout)
 
             with res_lock:
-                if worker_proc.is_alive():
+                if res_done.is_set():
+                    # the task reported its result under the lock - the
+                    # process may still be busy exiting, but there is nothing
+                    # to add
+                    pass
+
+                elif worker_proc.is_alive():
                     worker_proc.terminate()
                     worker_proc.join()
                     out = None
@@ -339,7 +345,7 @@ class DefaultWorker(Worker):
                     self._result_queue.put(res)
                     self._log.debug('worker_proc killed: %s', task['uid'])
 
-                elif not res_done.is_set():
+                else:
                     # the process ended (exit, signal) without reporting
                     err = 'task process died (%s)' % worker_proc.exitcode
                     exc = ['RuntimeError("task process died")', None]
